@@ -87,5 +87,17 @@ Outcome(c) ==
          ELSE IF m = "cohorts" /\ v2 = "T" THEN Refuse("ValueError")
          ELSE Ok(m, v2 = "T", TRUE)
 
+(***************************************************************************)
+(* _choose_engine (engine=None): transcribed decision table.                *)
+(*   nanSkipping   the blueprint's block functions skip NaN (nan* names,     *)
+(*                 count) ; sortedLabels: in-memory labels in ascending order *)
+(***************************************************************************)
+ChooseEngine(c, nanSkipping, sortedLabels, boolFamily) ==
+  IF c.engine # "none" THEN c.engine
+  ELSE IF c.fclass = "bwonly" THEN "flox"                                   \* order statistics: the vectorised kernel
+  ELSE IF boolFamily \/ (~IsArg(c) /\ nanSkipping /\ ~c.dtypeArg) THEN "numbagg"
+  ELSE IF ~IsArg(c) /\ ~c.byDask /\ sortedLabels THEN "flox"
+  ELSE "numpy"
+
 CleanKinds == {"ok", "ValueError", "NotImplementedError", "ImportError"}
 =============================================================================
